@@ -346,7 +346,7 @@ def build_targets(ctx, tier):
     corp = vlib.run_impl('corpus.load', [None])[0]
     corp = [c for c in corp if 'src' in c]
     lim = os.environ.get('C20_LIMIT')
-    step = 1 if tier == 'thorough' else 16
+    step = 4 if tier == 'thorough' else 16      # quick subset of thorough: every 16th / every 4th corpus program
     progs = []
     for c in corp[::step]:
         progs.append({'src': c['src'], 'tag': f"{c['file']}:{c['idx']}",
